@@ -8,6 +8,7 @@ ALLOWED_AXIOMS = []
 MAPPER_TRUST = [
     "hand-written model coq/theories/Mapper.v of src/key_transforms.rs, tied to the code by the mapper engine: complete reachable transition graph of the real Mapper vs the extracted model for every layout of the generated family (bounded number of keys held at once), seeded random walks on the five builtin layouts",
     "property checkers coq/theories/Monitors.v (extracted, applied to the real code's outputs)",
+    "observation classes of the comparison: HELD = the set of keys held after the step and the set of keys pressed by it; REPEAT = the repeat request; EVENTS = the event list of the step modulo the order the mapper properties leave open - a permutation that keeps the order of the events of each key and the position of every press of a non-modifier key relative to all other events is the same observation (canonical form: the segments between presses of non-modifier keys, stable-sorted by key code); FULL = EVENTS + REPEAT. An implementation that differs from Mapper.v only in such an order is therefore still covered by the theorems as far as the properties can tell them apart (C04/C07/C08 speak about what is down when a non-modifier key goes down, C03 about which presses occur, C19 about each key's own events); the extracted checkers always judge the REAL event list as it is",
     "gen/Modifiers.v regenerated from is_action_key on every run",
 ]
 MAPPER_RULE = ("layouts: corpus + sample of all single-mapping layouts over {A,B,LEFTSHIFT,CAPSLOCK} + seeded random 2-4 mapping layouts "
